@@ -22,7 +22,7 @@ END
 ```
 Output per case: `CASE <id>`, the model's observations, `ENDCASE`.
 Dispatch cases: optional `X <Err>` (constructor refused) / `W <port dev> <endpoint dev>` (hub wiring), then per packet
-`P <pid>` followed by `D <dev> <id>.<copy>` lines or `X <Err>`.
+`P <pid>` followed by `D <dev> <id>.<copy>` lines or `X <Err>`; for splitters also `C j c` / `I i j f t q` (see `printHeapChecks`).
 Fat tree: `CTOR ok|X <Err>`, `COUNT core aggr edge host total`, with `DUMP 1` one `N <id> <layer> <type> <pod|-> <nbrs>` per
 node, `GEN ok|X <Err>`, `T <node> <port_to_nexthop> <nexthop_to_port> <flow_to_port> <flow_to_nexthop>` (all nodes with
 `DUMP 1`, else nodes with flow entries), `V <key> <from> <nodes visited…>` per flow (and per ACK class with `TCP 1`),
@@ -86,6 +86,29 @@ def printBoth (model gen : Result) : IO Unit := do
   if !sameResult model gen then
     IO.println "GENERATED-DIFFERS"
     printResult gen
+
+/-- the heap part of a splitter dispatch: the entering packet owns its tables and carries one earlier stamp (key 7);
+`C j c` says whether the `j`-th delivered object carries that stamp, `I i j f t q` whether rebinding a field of / writing in
+place into `perhop_time` / `priorities` of the `i`-th delivered object is visible through the `j`-th (`0` = not visible) -/
+def printHeapChecks (orig : PktRef) (r : Result) : IO Unit := do
+  match r with
+  | .error _ => pure ()
+  | .ok l =>
+    let h0 : Heap := {
+      objs := fun x => if x = orig then some { hdr := fun _ => 0, tab := fun w => (orig, w) } else none,
+      tabs := fun t k => if t.1 = orig ∧ k = 7 then some 3 else none }
+    let H := splitHeap h0 orig l
+    let refs := l.map (·.2)
+    let b (x : Bool) : String := if x then "1" else "0"
+    for (rj, j) in refs.zipIdx do
+      IO.println s!"C {j} {b (H.readTab rj .perhop 7 == some (some 3) && H.readTab rj .priorities 7 == some (some 3))}"
+    for (ri, i) in refs.zipIdx do
+      for (rj, j) in refs.zipIdx do
+        if i != j then
+          let f := (H.setField ri 0 1).readField rj 0 != H.readField rj 0
+          let t := (H.tabWrite ri .perhop 0 1).readTab rj .perhop 0 != H.readTab rj .perhop 0
+          let q := (H.tabWrite ri .priorities 0 1).readTab rj .priorities 0 != H.readTab rj .priorities 0
+          IO.println s!"I {i} {j} {b f} {b t} {b q}"
 
 def fmtDict (d : Dict) : String :=
   if d.isEmpty then "-" else ",".intercalate (d.map fun (a, b) => s!"{a}:{b}")
@@ -181,13 +204,17 @@ def runCase (c : RCase) : IO Unit := do
       runPkts c fun p => printDeliveries (Hub.put cfg p)
   | "splitter" =>
     let cfg : SplitterCfg := { out1 := c.out1, out2 := c.out2 }
-    runPkts c fun p => printBoth (.ok (Splitter.put cfg p 1)) ((Route.Gen.Splitter_put cfg p).run 1)
+    runPkts c fun p => do
+      printBoth (.ok (Splitter.put cfg p 1)) ((Route.Gen.Splitter_put cfg p).run 1)
+      printHeapChecks p.ref (.ok (Splitter.put cfg p 1))
   | "nsplitter" =>
     match NSplitter.mk c.ns with
     | .error e => IO.println s!"X {e.name}"
     | .ok outs =>
       let outs := c.sets.foldl (fun outs (i, d) => outs.set i (some d)) outs
-      runPkts c fun p => printResult (NSplitter.put outs p 1)
+      runPkts c fun p => do
+        printResult (NSplitter.put outs p 1)
+        printHeapChecks p.ref (NSplitter.put outs p 1)
   | "fattree" => runFatTree c
   | k => IO.println s!"BADKIND {k}"
   IO.println "ENDCASE"
